@@ -437,6 +437,8 @@ type Bcast[T any] struct {
 	Fail func(T) error
 	// OnPayload is invoked (outside the lock) for every payload; used to feed P2P store doubles.
 	OnPayload func(T)
+	// Own is invoked first: the node's own P2P store takes what the node broadcasts (as the real sync service does).
+	Own func(T)
 }
 
 func (b *Bcast[T]) WriteToStoreAndBroadcast(ctx context.Context, payload T) error {
@@ -444,7 +446,11 @@ func (b *Bcast[T]) WriteToStoreAndBroadcast(ctx context.Context, payload T) erro
 	b.Got = append(b.Got, payload)
 	f := b.Fail
 	on := b.OnPayload
+	own := b.Own
 	b.mu.Unlock()
+	if own != nil {
+		own(payload)
+	}
 	if on != nil {
 		on(payload)
 	}
@@ -555,6 +561,16 @@ func (s *P2PStore[H]) HasAt(ctx context.Context, height uint64) bool {
 	defer s.mu.Unlock()
 	_, ok := s.items[height]
 	return ok
+}
+
+// TakeOwn is what the node's own broadcast does to its P2P store: the item extends the head, or is dropped.
+func (s *P2PStore[H]) TakeOwn(h H) {
+	s.mu.Lock()
+	defer s.mu.Unlock()
+	if s.height == 0 || h.Height() == s.height+1 {
+		s.items[h.Height()] = h
+		s.height = h.Height()
+	}
 }
 
 func (s *P2PStore[H]) Append(ctx context.Context, hs ...H) error {
